@@ -65,7 +65,7 @@ _E = {}
 def init_worker():
     from yamlpath.differ import Differ, DifferConfig
     from yamlpath.differ.enums import DiffActions, ArrayDiffOpts, AoHDiffOpts
-    from yamlpath.wrappers import ConsolePrinter
+    from yamlpath.wrappers import ConsolePrinter, NodeCoords
     from yamlpath.common import Parsers
     from yamlpath import Processor, YAMLPath
     from yamlpath.commands import yaml_diff
@@ -76,7 +76,7 @@ def init_worker():
               Processor=Processor, YAMLPath=YAMLPath, yaml_diff=yaml_diff, CommentedMap=CommentedMap,
               CommentedSeq=CommentedSeq, CommentedSet=CommentedSet, TaggedScalar=TaggedScalar,
               SearchTerms=SearchTerms, SearchKeywordTerms=SearchKeywordTerms, CollectorTerms=CollectorTerms,
-              ArrayDiffOpts=ArrayDiffOpts, AoHDiffOpts=AoHDiffOpts,
+              ArrayDiffOpts=ArrayDiffOpts, AoHDiffOpts=AoHDiffOpts, NodeCoords=NodeCoords,
               sym={DiffActions.SAME: "s", DiffActions.CHANGE: "c", DiffActions.DELETE: "d", DiffActions.ADD: "a"})
 
 
@@ -628,32 +628,116 @@ def null_faces_container(case):
     return False
 
 
-def aoh_identity_trouble(case):
-    """Some sequence holding a mapping also holds an element that is not a
-    mapping, or a record without the list's identity key (the first key of the
-    first record), or two records with the same identity value."""
-    lhs, rhs = _docs(case)
-    seqs = [n for doc in (lhs, rhs) for n in subnodes(doc, []) if kind(n) == "S" and any(kind(e) == "M" for e in n)]
-    for s in seqs:
+def failing_combo(case):
+    """(arrays, aoh) of the first run of the case whose verdict is not None."""
+    for combo, v in zip(COMBOS, prepare(case)["verdicts"]):
+        if v is not None:
+            return combo
+    return None
+
+
+def key_mode_sites(lhs, rhs, cfg):
+    """The sequences that configuration `cfg` (already prepared on `rhs`)
+    compares in key / deep mode, found by walking the RIGHT document the way
+    the modes are documented (the mode of a list and its identity key are
+    decided from the right-hand list and its first element): a list of
+    (right-hand sequence, [left-hand values it may be compared with]).  Left
+    partners are followed by mapping key, by position under a positional
+    comparison, and any element of the partner lists under a synchronised
+    one.  Below a list whose elements are compared whole (--aoh position, key)
+    nothing is compared, so nothing is collected."""
+    NC = _E["NodeCoords"]
+    A, H = _E["ArrayDiffOpts"], _E["AoHDiffOpts"]
+    sites = []
+
+    def go(r, parent, pref, cands):
+        k = kind(r)
+        if k == "M":
+            for key, v in r.items():
+                go(v, r, key, [c[key] for c in cands if kind(c) == "M" and key in c])
+            return
+        if k != "S":
+            return
+        lists = [c for c in cands if kind(c) == "S"]
+        if not lists:
+            return                      # a type clash: the list is added / deleted whole
+        nc = NC(r, parent, pref)
+        synced, deep = False, True
+        if len(r) > 0 and kind(r[0]) == "M":
+            hm = cfg.aoh_diff_mode(nc)
+            if hm is H.KEY or hm is H.DEEP:
+                sites.append((r, lists))
+                if hm is H.KEY:
+                    return
+                synced = True
+            elif hm is H.VALUE:
+                synced = True
+            else:
+                deep = hm is H.DPOS
+                synced = cfg.array_diff_mode(nc) is A.VALUE
+        else:
+            synced = cfg.array_diff_mode(nc) is A.VALUE
+        if not synced and not deep:
+            return
+        for i, e in enumerate(r):
+            if synced:
+                sub = [x for c in lists for x in c]
+            else:
+                sub = [c[i] for c in lists if i < len(c)]
+            go(e, r, i, sub)
+
+    go(rhs, None, None, [lhs])
+    return sites
+
+
+def site_trouble(site, cfg):
+    """The call-site condition of finding F4: the sequence pair cannot be read
+    as two bags of records named by the identity key in force (from [keys], or
+    the first key of the first right-hand record)."""
+    NC = _E["NodeCoords"]
+    r, lists = site
+    for s in [r] + lists:
         if any(kind(e) != "M" for e in s):
-            return True
-    firsts = set()
-    for s in seqs:
-        if len(s[0]) == 0:
-            return True
-        firsts.add(next(iter(s[0])))
-    for s in seqs:
-        for f in firsts:
+            return True                 # a non-mapping element
+    key_attr, user0 = cfg.aoh_diff_key(NC(r[0], r, 0))
+    if not user0 and len(r[0]) == 0:
+        return True                     # the first record is empty: no identity key at all
+    keys = set([key_attr])
+    for i, e in enumerate(r):
+        alt, is_user = cfg.aoh_diff_key(NC(e, r, i))
+        use = alt if (is_user and alt) else key_attr
+        keys.add(use)
+        if use not in e:
+            return True                 # a right-hand record lacks the key in force for it
+    for s in [r] + lists:
+        for k in keys:
             vals = []
             for e in s:
-                if f not in e:
-                    return True
-                vals.append(e[f])
+                if k not in e:
+                    return True         # a record lacks an identity key in force
+                vals.append(e[k])
             for i in range(len(vals)):
                 for j in range(i + 1, len(vals)):
                     if deq(vals[i], vals[j]):
-                        return True
+                        return True     # two records of one list share an identity value
     return False
+
+
+def aoh_identity_trouble(case):
+    """In the failing run some sequence pair is compared in key / deep mode
+    although a record lacks the identity key in force there (configured through
+    [keys], or the first key of the first right-hand record), two records of
+    one list share an identity value, or an element is not a mapping."""
+    combo = failing_combo(case)
+    if combo is None:
+        return False
+    lhs, rhs = _docs(case)
+    cfg = make_config(combo[0], combo[1], case.get("cfg"))
+    try:
+        cfg.prepare(rhs)
+    except Exception:  # noqa
+        return False
+    return any(site_trouble(s, cfg) for s in key_mode_sites(lhs, rhs, cfg))
 
 
 def _kind_is(case, *kinds):
